@@ -73,6 +73,10 @@ CHECKS = {
    text="Codec.tla specifies the human-readable form as an automaton over character sequences (cut on the first ':', '#', '@', strip the optional bracket pair, subject set iff the subject contains ':') with the documented domain Dom_string; TLC checks on every text up to a length that parsing fails or the printed form of the result re-parses to the same value, and on 22 000 structured values that the round trip is the identity on Dom_string. Every text is parsed by the real FromString and compared with the automaton (result and re-parse); every value goes through String/FromString, JSON, URL query and protobuf (as a relationship and as a query with every subset of fields).",
    note="For JSON / URL query / protobuf the specification is only the identity law over the enumerated value space; the string form is the part with a real model. Alphabet {a, b, :, #, @, (, )}, texts up to length 5 (quick) / 6 (thorough).",
    technique="TLA+ model checking of the string-form automaton + exhaustive model-vs-implementation comparison", ref="4/C18"),
+ "C19": dict(
+   text="Reload.tla models writer, file watcher (reads the content a file has when it looks, writes coalesce) and the two managers (OPL: all files re-parsed, all or nothing; legacy: per-file last good); TLC checks over all interleavings that what is served for a file is always one valid version of it written so far, that a file shows nothing only before a valid version was loaded or after the manager was told it is gone, and that once writing stops the last versions are served; with OneShotReader = TRUE it reproduces the recorded defect. Write/remove sequences (valid, syntactically invalid, type-incorrect; OPL single file and directory; legacy JSON/YAML/TOML) are executed with atomic renames against the real fsnotify watchers while a sampler reads Namespaces() every 150 us; the totally ordered log of writes started and observations is validated by TLC against TraceReload.tla.",
+   note="Assumes fsnotify reports an atomic rename; final state awaited up to 15 s; two files, up to 8 steps per sequence.",
+   technique="TLA+ model checking (TLC) + TLC trace validation of recorded watcher executions", ref="4/C19"),
 }
 NOT_YET = "check not built yet in this session (work in progress, see DESIGN.md section 12)"
 
